@@ -530,6 +530,117 @@ def queryRequest (fields : List Field) (q : List Nat) : Except Err (List (List N
   | none => .error .badUri
   | some q' => queryExtract fields q'
 
+/-! ## the `Content-Type` gate of `JsonBody` / `UrlEncodedBody` (mime 0.3 `parse`) -/
+
+/-- `HeaderValue::to_str`: visible ASCII or tab only. -/
+def isVisibleAscii (b : Nat) : Bool := b = 9 || (32 ≤ b && b < 127)
+
+/-- mime's `TOKEN_MAP`. -/
+def isTokenByte (b : Nat) : Bool :=
+  (48 ≤ b && b ≤ 57) || (65 ≤ b && b ≤ 90) || (97 ≤ b && b ≤ 122) ||
+  b = 33 || b = 35 || b = 36 || b = 37 || b = 38 || b = 39 || b = 42 || b = 43 || b = 45 || b = 46 ||
+  b = 94 || b = 95 || b = 96 || b = 124 || b = 126
+
+/-- Top-level type: one or more token bytes up to the first `/`. Returns the type and the rest. -/
+def scanType : List Nat → List Nat → Option (List Nat × List Nat)
+  | [], _ => none
+  | b :: rest, acc =>
+    if isTokenByte b then scanType rest (acc ++ [b])
+    else if b = 47 && !acc.isEmpty then some (acc, rest)
+    else none
+
+/-- Subtype: token bytes; the last `+` that is not the first byte splits off the suffix; a `;`
+    that is not the first byte starts the parameters. Returns (subtype+suffix bytes, index of the
+    plus, parameter bytes). -/
+def scanSub : List Nat → Nat → List Nat → Option Nat → Option (List Nat × Option Nat × Option (List Nat))
+  | [], _, acc, plus => some (acc, plus, none)
+  | b :: rest, i, acc, plus =>
+    if b = 43 && 0 < i then scanSub rest (i + 1) (acc ++ [b]) (some i)
+    else if b = 59 && 0 < i then some (acc, plus, some rest)
+    else if isTokenByte b then scanSub rest (i + 1) (acc ++ [b]) plus
+    else none
+
+/-- States of `params_from_str`; the flag says whether the current name/value is still empty. -/
+inductive PState where
+  | start | name | value0 | unq | quoted (empty : Bool) | afterQ
+  deriving Repr, DecidableEq
+
+def restrictedQuoted (b : Nat) : Bool := b = 9 || (31 < b && b != 127)
+
+def pStep : PState → Nat → Option PState
+  | .start, b => if b = 32 then some .start else if isTokenByte b then some .name else none
+  | .name, b => if isTokenByte b then some .name else if b = 61 then some .value0 else none
+  | .value0, b => if b = 34 then some (.quoted true) else if isTokenByte b then some .unq else none
+  | .unq, b => if isTokenByte b then some .unq else if b = 59 then some .start else none
+  | .quoted e, b =>
+    if b = 34 && !e then some .afterQ else if restrictedQuoted b then some (.quoted false) else none
+  | .afterQ, b => if b = 59 then some .start else if b = 32 then some .afterQ else none
+
+def pEnd : PState → Bool
+  | .start => true | .name => false | .value0 => true | .unq => true | .quoted _ => false | .afterQ => true
+
+def paramsGo : PState → List Nat → Bool
+  | st, [] => pEnd st
+  | st, b :: rest => match pStep st b with
+    | some st' => paramsGo st' rest
+    | none => false
+
+def asciiLower (bs : List Nat) : List Nat := bs.map (fun b => if 65 ≤ b ∧ b ≤ 90 then b + 32 else b)
+
+/-- `s.parse::<mime::Mime>()`: (type, subtype, suffix), lower-cased; `none` on a parse error. -/
+def parseMime (bs : List Nat) : Option (List Nat × List Nat × Option (List Nat)) :=
+  match scanType bs [] with
+  | none => none
+  | some (ty, rest) =>
+    match scanSub rest 0 [] none with
+    | none => none
+    | some (sub, plus, params) =>
+      let paramsFine := match params with
+        | none => true
+        | some ps => paramsGo .start ps
+      if !paramsFine then none
+      else match plus with
+        | none => some (asciiLower ty, asciiLower sub, none)
+        | some i => some (asciiLower ty, asciiLower (sub.take i), some (asciiLower (sub.drop (i + 1))))
+
+inductive CtOutcome where
+  | missing      -- `MissingJsonContentType` / `MissingUrlEncodedContentType`
+  | mismatch     -- `JsonContentTypeMismatch` / `UrlEncodedContentTypeMismatch`
+  | ok
+  deriving Repr, DecidableEq
+
+def applicationLit : List Nat := [97, 112, 112, 108, 105, 99, 97, 116, 105, 111, 110]
+def jsonLit : List Nat := [106, 115, 111, 110]
+def formLit : List Nat :=
+  [120, 45, 119, 119, 119, 45, 102, 111, 114, 109, 45, 117, 114, 108, 101, 110, 99, 111, 100, 101, 100]
+
+/-- `check_json_content_type` (`wantJson`) / `check_urlencoded_content_type`. -/
+def ctCheck (wantJson : Bool) (hdr : Option (List Nat)) : CtOutcome :=
+  match hdr with
+  | none => .missing
+  | some bs =>
+    if !bs.all isVisibleAscii then .missing
+    else match parseMime bs with
+      | none => .mismatch
+      | some (ty, sub, suffix) =>
+        if ty = applicationLit &&
+            (if wantJson then sub = jsonLit || suffix = some jsonLit else sub = formLit) then .ok
+        else .mismatch
+
+/-- `UrlEncodedBody::<T>::extract(head, body)`. -/
+inductive BodyErr where
+  | ct (o : CtOutcome)
+  | de (e : Err)
+  deriving Repr, DecidableEq
+
+def formBodyExtract (fields : List Field) (hdr : Option (List Nat)) (body : List Nat) :
+    Except BodyErr (List (List Nat × Val)) :=
+  match ctCheck false hdr with
+  | .ok => match queryExtract fields body with
+    | .ok v => .ok v
+    | .error e => .error (.de e)
+  | o => .error (.ct o)
+
 /-! ## Specification side (what the property demands; used by the theorems, not by the driver) -/
 
 /-- One field, by name: its value is `de` applied to THE entry carrying the field's name,
@@ -578,5 +689,24 @@ def formSpec (ps : List (List Nat × List Nat × Bool)) : List Field → Option 
     match formFieldSpec ps f, formSpec ps fs with
     | .ok v, some r => some ((f.name, v) :: r)
     | _, _ => none
+
+/-- What a client writes for a scalar value (`Display` / `to_string`). -/
+def printSVal : SVal → List Nat
+  | .int z => intDigits z
+  | .bool true => [116, 114, 117, 101]
+  | .bool false => [102, 97, 108, 115, 101]
+  | .char c => utf8Encode c
+  | .str bs => bs
+
+/-- The value inhabits the Rust type. (`&str` is left out: it is only extractable when the
+    client's text needed no decoding at all.) -/
+def SValOk : STy → SVal → Prop
+  | .u bits, .int z => 0 ≤ z ∧ z < ((2 ^ bits : Nat) : Int)
+  | .i bits, .int z => 1 ≤ bits ∧ -((2 ^ (bits - 1) : Nat) : Int) ≤ z ∧ z < ((2 ^ (bits - 1) : Nat) : Int)
+  | .bool, .bool _ => True
+  | .char, .char c => isScalar c = true
+  | .string, .str _ => True
+  | .cow, .str _ => True
+  | _, _ => False
 
 end Pxv.ReqData
